@@ -11,35 +11,62 @@
   The hypothesis "no blocked recipient" is what fix F4 establishes on the real chain for rollapp
   owners (creation needs the owner's signature, transfer now refuses blocked addresses; lock owners
   are signers): `blocked_owner_fails_block_counterexample` shows it is needed.
+  The ROLLAPP-OWNER half of that hypothesis is not assumed: the rollapp table of M-Incent (its
+  `.rollapp r owner launched` inputs) is a projection of an M-Core state (`RollappsFromCore`), and M-Core
+  proves `OwnersNotBlocked` for every reachable state — ownership transfers included
+  (`Lemmas/CoreOwners.run_owners`, through `Core.transferOwner`'s refusal of a blocked new owner = /repo
+  fix 64b101c36).  Reverting that fix breaks `transferOwnership_skeleton` (tie) and `run_owners` (proof).
 -/
 import DymVerif.Lemmas.IncentBlocks
+import DymVerif.Lemmas.CoreOwners
 namespace DymVerif.C11
 open DymVerif DymVerif.Incent
 
-theorem streamer_end_block_never_fails (now mi : Nat) (ops : List Op)
+/-- general form, for any state without blocked recipients -/
+theorem streamer_end_block_never_fails_of_noBlocked (now mi : Nat) (ops : List Op)
     (hw : ∀ op ∈ ops, op.wf ∧ op.wfS ∧ op.noRetarget)
     (hlen : (run (init now mi) ops).streams.length < maxU64) (hnb : NoBlocked (run (init now mi) ops)) :
     ∃ s', streamerEndBlock (run (init now mi) ops) = .ok s' :=
   streamer_endBlock_ok_reachable now mi ops hw hlen hnb
 
-theorem end_block_does_not_halt (now mi : Nat) (ops : List Op)
+/-- the rollapp table M-Incent was given is a projection of the M-Core state `cs` under the address
+    translation `ι`: every entry is the padding placeholder or carries the owner of a rollapp record of `cs` -/
+def RollappsFromCore (ι : Core.Addr → Nat) (cs : Core.St) (s : State) : Prop :=
+  ∀ ra ∈ s.rollapps, ra = ⟨false, 0, false⟩ ∨ ∃ r ∈ cs.ras, ra.owner = ι r.owner
+
+/-- **projection lemma**: rollapp owners taken from an M-Core state satisfying `OwnersNotBlocked`, under an
+    address translation that agrees with the bank's blocked list on both sides, are not blocked in M-Incent -/
+theorem rollapp_owners_not_blocked_of_core (ι : Core.Addr → Nat) (hι : ∀ a, blocked (ι a) = Core.blockedAddr a)
+    (cs : Core.St) (hc : Core.OwnersNotBlocked cs) (s : State) (hp : RollappsFromCore ι cs s) :
+    ∀ ra ∈ s.rollapps, blocked ra.owner = false := by
+  intro ra hra
+  rcases hp ra hra with h | ⟨r, hr, ho⟩
+  · subst h; decide
+  · rw [ho, hι]; exact hc r hr
+
+/-- **streamer_end_block_never_fails** — for every admissible history of M-Incent whose lock owners are
+    not blocked (lock owners are signers) and whose rollapp table is a projection of ANY reachable M-Core
+    state (any parameters, any op sequence — `MsgTransferOwnership` included — with rollapps created by
+    non-module accounts), the streamer EndBlock returns no error.  The rollapp-owner half of `NoBlocked`
+    is discharged from M-Core's `OwnersNotBlocked`. -/
+theorem streamer_end_block_never_fails (now mi : Nat) (ops : List Op)
     (hw : ∀ op ∈ ops, op.wf ∧ op.wfS ∧ op.noRetarget)
-    (hlen : (run (init now mi) ops).streams.length < maxU64) (hnb : NoBlocked (run (init now mi) ops))
-    (hh : (run (init now mi) ops).halted = false) :
-    (step (run (init now mi) ops) .end_).1 = .ok :=
-  end_does_not_halt now mi ops hw hlen hnb hh
+    (hlen : (run (init now mi) ops).streams.length < maxU64)
+    (hlocks : ∀ l ∈ (run (init now mi) ops).locks, blocked l.owner = false)
+    (ι : Core.Addr → Nat) (hι : ∀ a, blocked (ι a) = Core.blockedAddr a)
+    (cp : Core.Params) (cops : List Core.Op) (hcre : ∀ o ∈ cops, Core.Owners.creatorOk o)
+    (hproj : RollappsFromCore ι (Core.run cp cops) (run (init now mi) ops)) :
+    ∃ s', streamerEndBlock (run (init now mi) ops) = .ok s' :=
+  streamer_endBlock_ok_reachable now mi ops hw hlen
+    ⟨hlocks, rollapp_owners_not_blocked_of_core ι hι _ (Core.Owners.run_owners cp cops hcre) _ hproj⟩
 
-theorem incentives_epoch_end_never_fails (s : State) (e : Nat) (hg : GInv s) (hroll : RollOK s) (hnb : NoBlocked s) :
-    ∃ s', incAfterEpochEnd s e = .ok s' :=
-  incentives_epochEnd_ok s e hg hroll hnb
-
-/-- a blocked rollapp owner (possible before fix F4 through `MsgTransferOwnership`) makes the streamer
-    EndBlock return an error: the block fails and the chain halts -/
-theorem blocked_owner_fails_block_counterexample :
-    (match streamerEndBlock (run (init 100 500) blockedOwnerHistory) with | .error .err => true | _ => false) = true ∧
-    (step (run (init 100 500) blockedOwnerHistory) .end_).2.halted = true ∧
-    (∀ op ∈ blockedOwnerHistory, op.wf ∧ op.wfS ∧ op.noRetarget) ∧
-    ¬ NoBlocked (run (init 100 500) blockedOwnerHistory) :=
-  endblock_blocked_owner_counterexample
-
-end DymVerif.C11
+/-- non-vacuity of the projection: an address translation agreeing with both blocked lists exists
+    (M-Core's blocked module accounts 900.. ↦ M-Incent's blocked lockup module account 102, everything
+    else ↦ an ordinary address), and a transferred owner is projected -/
+example : ∃ ι : Core.Addr → Nat, (∀ a, blocked (ι a) = Core.blockedAddr a) ∧ ι 5 = 1005 :=
+  ⟨fun a => if Core.blockedAddr a then 102 else a + 1000, by
+    intro a
+    show blocked (if Core.blockedAddr a = true then 102 else a + 1000) = Core.blockedAddr a
+    cases h : Core.blockedAddr a with
+    | true => simp [blocked]
+    | false => simp [blocked, incAddr], by decide⟩
